@@ -45,6 +45,9 @@ func TestVerifSim(t *testing.T) {
 				os.Exit(3)
 			}
 		}(i)
+		// which scenario is running: if the process dies (a panic outside a request handler / command, a fatal runtime
+		// error), the Python side reads this to name the scenario that killed the proxy
+		os.WriteFile(os.Getenv("VERIF_OUT")+".cur", []byte(strconv.Itoa(i)), 0o644)
 		res := vRunScenario(t, sc)
 		close(done)
 		res["i"] = i
